@@ -317,12 +317,25 @@ theorem stale_unmanage_witness :
     st'.jobs = [] ∧ requiredOK st'.cur st'.all st'.managed = false := by
   decide
 
-/-- Lifetime property at full strength (code after F14g.patch + F14h.patch): for EVERY history of reloads and
-    time steps, at every instant — settled or not — everything the configuration in force requires is managed. -/
+/-- Lifetime property at full strength (the code as it is now, after F14g + F14h): for EVERY history of updates,
+    time steps AND admin-server faults (`Ev.fail p d`: the next `p` PUTs / `d` DELETEs are refused, at whatever
+    point of whatever request they fall), at every instant — settled or not — everything the configuration IN
+    FORCE requires is managed.  A refused manage request leaves the OLD configuration in force (the update
+    registers first and publishes only then); what it had already registered stays registered (harmless). -/
 theorem managed_after_reload (evs : List Ev) :
     let st := run .stamped {} evs
     requiredOK st.cur st.all st.managed = true :=
   requiredOK_of_inv _ (inv_run evs {} inv_init)
+
+/-- The order matters: publishing the new policies BEFORE the manage request (the seeded change C14-s5) breaks the
+    property at the first refused PUT — the engine applies endpoints the proxy never registered. -/
+theorem publish_first_violation_witness :
+    let a : Req := ⟨false, ["GET:::a\\.com/x$", "GET:::a\\.com/y$"]⟩
+    let bad := reload .stamped { failPut := 1 } a true
+    let good := reload .stamped { failPut := 1 } a
+    bad.cur = a ∧ bad.managed = [] ∧ requiredOK bad.cur bad.all bad.managed = false ∧
+    good.cur = ⟨false, []⟩ ∧ requiredOK good.cur good.all good.managed = true := by
+  decide
 
 /-- … with F14g.patch alone: for every history in which a reload happens only when the previous ones have
     settled (no un-manage pending). -/
@@ -339,6 +352,18 @@ example :
     let st := run .stamped {} [.reload a, .reload b, .advance 10000, .reload a, .advance ttl]
     st.jobs = [] ∧ st.managed = ["GET:::a\\.com/x$", "GET:::a\\.com/x$"] ∧
     requiredOK st.cur st.all st.managed = true := by
+  decide
+
+/-- `managed_after_reload` with faults is not vacuous: the second update is refused at its first PUT — the old
+    configuration stays in force and managed, the first new entry stays registered; the retry goes through. -/
+example :
+    let a : Req := ⟨false, ["GET:::a\\.com/x$"]⟩
+    let b : Req := ⟨false, ["GET:::a\\.com/y$", "GET:::a\\.com/z$"]⟩
+    let st' := run .stamped {} [.reload a, .fail 1 0, .reload b, .reload b, .advance ttl]
+    (run .stamped {} [.reload a, .fail 1 0, .reload b]).cur = a ∧
+    (run .stamped {} [.fail 0 1, .reload a, .reload b, .advance ttl]).managed.contains "GET:::a\\.com/x$" = true ∧
+    st'.cur = b ∧ st'.jobs = [] ∧ requiredOK st'.cur st'.all st'.managed = true ∧
+    st'.managed.contains "GET:::a\\.com/x$" = false := by
   decide
 
 /-- … and the hypothesis of `managed_after_reload_spaced` is satisfiable by a history with two real reloads. -/
